@@ -24,8 +24,8 @@ def main():
     rc, t = sh("bash " + demo, cwd=wt); note("demo on clean worktree (must be 0)", rc, t)
     clean_ok = rc == 0
     rc, t = sh("git apply " + patch, cwd=wt); note("git apply patch in worktree", rc, t)
-    rc, t = sh("go build ./... ", cwd=wt); note("go build with change", rc, t); build_ok = rc == 0
-    rc, t = sh("go test -vet=off -count=1 ./...", cwd=wt); note("baseline tests with change (must be 0)", rc, t); tests_ok = rc == 0
+    rc, t = sh("go build . ./test/... ", cwd=wt); note("go build with change", rc, t); build_ok = rc == 0
+    rc, t = sh("go test -vet=off -count=1 . ./test/...", cwd=wt); note("baseline tests with change (must be 0)", rc, t); tests_ok = rc == 0
     rc, t = sh("bash " + demo, cwd=wt); note("demo with change (must be non-zero)", rc, t); demo_fails = rc != 0
     sh("git checkout -- . ", cwd=wt)
     out["confirmed"] = bool(clean_ok and build_ok and tests_ok and demo_fails)
